@@ -109,6 +109,10 @@ def run(ctx):
             r.check('%s:own-timer' % nm, len(rows2) == 1 and rows2[0].value_str().startswith('heartbeats::Heartbeat::fire(') and rows2[0].value_str().endswith('.%s, self.timer)' % fld), ctx.site(HT + 'HeartbeatTimers::' + nm),
                     built=[x.value_str() for x in rows2])
 
+    with ctx.rule('R17.5', 'after the handshake only heartbeats can end an idle connection: the connection timeout is cleared on success (shared with C16)', floor=2) as r:
+        A.include(ctx, r, 'c16', 'R16.2', pick=('timeout-cleared-on-success', 'loop-call'))
+        A.include(ctx, r, 'c16', 'R16.5')
+
     with ctx.rule('R17.4', 'fire: Expired iff interval <= elapsed + fudge, re-armed for interval; else re-armed for interval - elapsed', floor=3) as r:
         rows = P.table(ctx, 'heartbeats::Heartbeat::fire', ['self', 'timer'])
         site = ctx.site('heartbeats::Heartbeat::fire')
